@@ -163,9 +163,34 @@ def gen_malformed(r, k):
     return Script(ops, {"kind": "malformed", "k": k})
 
 
+def gen_slow(r, k):
+    """a client that reads slowly: the answer the handler decided on is written only after further rounds went through the
+    watch loop; what finally leaves must still be the beacon of the requested round (engine ops reqslow / unslow; the Lean
+    model has no notion of a response writer, these scripts are judged by the property oracle only)"""
+    L = r.range(3, 40)
+    ops = ["new", f"req a {r.range(1, L)}", f"watch {L}"]
+    if r.chance(2, 3):
+        # parked for the next round, released by the watcher, then overtaken by later rounds before the client reads
+        ops += [f"reqslow b {L + 1}", f"watch {L + 1}", "reap b"]
+        n = L + 1
+    else:
+        # served by a direct Get of a past round, then overtaken
+        ops += [f"reqslow b {r.range(1, L)}"]
+        n = L
+    for _ in range(r.range(1, 3)):
+        n += 1
+        ops.append(f"watch {n}")
+        if r.chance(1, 3):
+            ops += [f"req c{n} {n}"]
+    ops += ["reap b", "unslow b", "reap b", "settle"]
+    return Script(ops, {"kind": "slow-reader", "k": k})
+
+
 def generate(rng, tier):
     out = []
     nv, nt, nl, nm = (40, 2, 2, 6) if tier == "quick" else (1500, 12, 10, 120)
+    for k in range(4 if tier == "quick" else 60):
+        out.append(gen_slow(rng.fork(f"httpw/slow/{k}"), k))
     for k in range(nv):
         out.append(gen_valid(rng.fork(f"httpw/valid/{k}"), tier, k))
     for k in range(nt):
@@ -219,6 +244,7 @@ def run_impl(scripts, workers=8, timeout=600):
 
 
 def run_model(scripts, variant):
+    scripts = [s for s in scripts if s.meta.get("kind") != "slow-reader"]
     lines = [l for s in scripts for l in s.ops]
     rc, out, err = _run(D(), ["httpw", variant], lines, 600)
     if rc != 0 or len(out) != len(lines):
@@ -258,9 +284,9 @@ def oracle_c01(s):
     asked = {}
     for i, (op, out) in enumerate(zip(s.ops, s.impl)):
         f = op.split()
-        if f[0] == "req" and len(f) == 3 and f[2].isdigit() and f[1] not in asked:
+        if f[0] in ("req", "reqslow") and len(f) == 3 and f[2].isdigit() and f[1] not in asked:
             asked[f[1]] = (int(f[2]), i)
-        if f[0] in ("req", "reap", "cancel") and len(f) >= 2 and out.startswith("200"):
+        if f[0] in ("req", "reqslow", "reap", "cancel") and len(f) >= 2 and out.startswith("200"):
             if f[1] not in asked:
                 continue
             want, at = asked[f[1]]
@@ -318,6 +344,8 @@ ORACLES = {"C01": oracle_c01, "C14": oracle_c14}
 
 def diff(s):
     """first index where implementation and model disagree (race / chainsrace / reqraw lines: first token resp. ignored)"""
+    if s.model is None:
+        return None     # oracle-only script (slow reader)
     for i, (op, a, b) in enumerate(zip(s.ops, s.impl, s.model)):
         k = op.split()[0] if op.split() else ""
         if k in ("reqraw", "chainsrace"):
@@ -477,6 +505,8 @@ def _explore_http(ctx, res, prop, tier):
     for s in scripts:
         if oracle(s) is not None:
             continue    # reported above (known finding or violation); the transcripts cannot agree past that point
+        if s.model is None:
+            continue    # oracle-only script
         j = diff(s)
         if j is None:
             cov["traces_validated_against_impl"] += 1
